@@ -1,5 +1,5 @@
-\* C06 thorough (safety, 2 nodes, all fault kinds): 2 nodes, 2 ids, clock 0..1, no tombstone collection, 2 CAS, 1 fault (garbage
-\* packet, junk push/pull, partition, restart), blocking watcher on node 1.
+\* C06 thorough (safety, 2 nodes, all fault kinds): 2 ids, clock 0..1, 2 CAS, 1 fault (garbage packet,
+\* junk push/pull, partition, restart), blocking watcher on node 1.
 CONSTANTS
   N = 2
   NI = 2
@@ -15,6 +15,11 @@ CONSTANTS
   AllowGarbage = TRUE
   AllowPartition = TRUE
   AllowJunkPP = TRUE
+  GateNodes = {}
+  InboxCap = 1
+  VersionTest = TRUE
+  MaxDel = 0
+  ObsoleteTimeout = 1
   ConsumeNet = FALSE
   Ideal = TRUE
   Ghost = TRUE
@@ -24,6 +29,6 @@ CONSTANTS
   QRounds = 2
 SPECIFICATION Spec
 VIEW view
-INVARIANTS TypeOK TombstonesInvisible InvalidationSafe NoInventedContent SentIsWritten WatcherNeverStale VersionCountsChanges
-PROPERTIES TombstonesForwarded NoResurrection GCOnlyExpired NoExpiredTombstoneStored OnlyChangesForwarded
+INVARIANTS TypeOK TombstonesInvisible InvalidationSafe NoInventedContent SentIsWritten WatcherNeverStale PrefixWatcherNeverStale VersionCountsChanges
+PROPERTIES TombstonesForwarded NoResurrection GCOnlyExpired NoExpiredTombstoneStored OnlyChangesForwarded DeletedStaysDeleted RemovedOnlyWhenObsolete DeletedNotRevived
 CHECK_DEADLOCK FALSE
